@@ -27,10 +27,10 @@ package main
 
 import (
 	"context"
-	"io"
-	"log/slog"
 	"encoding/json"
 	"fmt"
+	"io"
+	"log/slog"
 	"os"
 	"reflect"
 	"regexp"
@@ -425,9 +425,26 @@ func signature(stack string) []string {
 	return out
 }
 
+var hardTimeout = 120 * time.Second
+
+// once a call has been confirmed (twice) to neither return nor park, later ones are given less time
+var confirmedRunaway atomic.Int64
+
+func currentHardTimeout() time.Duration {
+	if confirmedRunaway.Load() > 0 && hardTimeout > 30*time.Second {
+		return 30 * time.Second
+	}
+	return hardTimeout
+}
+
+func init() {
+	if v, err := strconv.Atoi(os.Getenv("SWAMPKV_HARD")); err == nil && v > 0 {
+		hardTimeout = time.Duration(v) * time.Second
+	}
+}
+
 const (
 	confirmWindow = 30 * time.Second // a goroutine parked this long on the same lock, at the same place, is declared blocked for good
-	hardTimeout   = 240 * time.Second
 )
 
 // window: how long a parked goroutine is watched before it is declared blocked for good.  Waiting for a
@@ -492,7 +509,7 @@ func invoke(fn func() (proto.Message, error)) (res callResult, returned bool, si
 		} else {
 			parkedSince = time.Time{}
 		}
-		if time.Since(start) > hardTimeout {
+		if time.Since(start) > currentHardTimeout() {
 			return callResult{}, false, signature(stack), st, true
 		}
 	}
@@ -964,7 +981,7 @@ func run(inPath, outPath string) error {
 		par = v
 	}
 	x.par = par
-	var abandoned atomic.Int64
+	var abandoned, retried, skipped atomic.Int64
 	var infraErr atomic.Value
 	var emitMu sync.Mutex
 	jobs := make(chan History)
@@ -977,29 +994,56 @@ func run(inPath, outPath string) error {
 				if infraErr.Load() != nil {
 					continue
 				}
-				sw := rig.SwampName("kv"+h.Mode, "t"+in.Tag, "h"+strconv.Itoa(h.ID))
-				lines := []map[string]any{{"ev": "reset", "h": h.ID, "mode": h.Mode}}
+				if confirmedRunaway.Load() >= 3 {
+					// the code under test keeps running away: enough observations, do not burn the time budget
+					skipped.Add(1)
+					continue
+				}
+				var lines []map[string]any
+				var sw string
 				ended := false
-				for i, q := range h.Steps {
-					var line map[string]any
-					returned, infra := true, false
-					if f, ok := lifecycleOps[q.Op]; ok {
-						line, infra = f(x, sw, h, q)
-					} else {
-						line, returned, infra = x.exec(sw, q)
+				// A call that neither returns nor parks within the hard timeout is first treated as a hiccup of the
+				// (possibly overloaded) machine: the history is run once more on a fresh swamp.  If it happens again at
+				// the same step it is an observation ("ret": false, wait "running") that the specification judges.
+				for attempt := 0; attempt < 2; attempt++ {
+					sw = rig.SwampName("kv"+h.Mode, "t"+in.Tag, "h"+strconv.Itoa(h.ID)+strings.Repeat("r", attempt))
+					lines = []map[string]any{{"ev": "reset", "h": h.ID, "mode": h.Mode, "attempt": attempt}}
+					ended = false
+					runaway := false
+					for i, q := range h.Steps {
+						var line map[string]any
+						returned, infra := true, false
+						if f, ok := lifecycleOps[q.Op]; ok {
+							line, infra = f(x, sw, h, q)
+						} else {
+							line, returned, infra = x.exec(sw, q)
+						}
+						line["ev"], line["h"], line["i"] = "call", h.ID, i
+						lines = append(lines, line)
+						if infra {
+							runaway = true
+							line["ret"] = false
+							if _, ok := line["wait"]; !ok {
+								line["wait"] = "running"
+							}
+							ended = true
+							x.abandoned.Add(1)
+							abandoned.Add(1)
+							break
+						}
+						if !returned {
+							abandoned.Add(1)
+							x.abandoned.Add(1)
+							ended = true
+							break
+						}
 					}
-					line["ev"], line["h"], line["i"] = "call", h.ID, i
-					lines = append(lines, line)
-					if infra {
-						infraErr.Store(fmt.Errorf("history %d step %d (%s): call neither returned nor parked within %s: %v %v", h.ID, i, q.Op, hardTimeout, line["sig"], line["why"]))
-						ended = true
+					if !runaway {
 						break
 					}
-					if !returned {
-						abandoned.Add(1)
-						x.abandoned.Add(1)
-						ended = true
-						break
+					retried.Add(1)
+					if attempt == 1 {
+						confirmedRunaway.Add(1)
 					}
 				}
 				if !ended && os.Getenv("SWAMPKV_KEEP") == "" {
@@ -1024,7 +1068,7 @@ func run(inPath, outPath string) error {
 		w.Close()
 		return e.(error)
 	}
-	w.Emit(map[string]any{"ev": "end", "h": 0})
+	w.Emit(map[string]any{"ev": "end", "h": 0, "retried": retried.Load(), "skipped": skipped.Load()})
 	if err := w.Close(); err != nil {
 		return err
 	}
